@@ -1,24 +1,38 @@
 // Harnesses for src/transports/sctp.rs (C01 kernels): serial-number comparison (RFC 1982 / RFC 9260 1.6)
 
-/// tsn_gt(a, b) <=> 0 < (a - b) mod 2^32 < 2^31, for every pair
-#[kani::proof]
+/// in-place contract predicates: RFC 1982 serial number comparison
+pub(crate) fn post_tsn_gt(a: u32, b: u32, r: bool) -> bool {
+    let d = (a as u64 + (1u64 << 32) - b as u64) % (1u64 << 32);
+    r == (d > 0 && d < (1u64 << 31))
+}
+pub(crate) fn post_ssn_gt(a: u16, b: u16, r: bool) -> bool {
+    let d = (a as u32 + 65536 - b as u32) % 65536;
+    r == (d > 0 && d < 32768)
+}
+/// tsn_gt(a, b) <=> 0 < (a - b) mod 2^32 < 2^31, for every pair (single call: contract proof)
+#[kani::proof_for_contract(tsn_gt)]
 fn c01_tsn_gt_serial_spec() {
     let (a, b): (u32, u32) = (kani::any(), kani::any());
-    let d = (a as u64 + (1u64 << 32) - b as u64) % (1u64 << 32);
-    assert!(tsn_gt(a, b) == (d > 0 && d < (1u64 << 31)));
-    // irreflexive, asymmetric, successor is greater — what SACK / FORWARD-TSN processing relies on
+    let r = tsn_gt(a, b);
+    assert!(post_tsn_gt(a, b, r));
+}
+#[kani::proof_for_contract(ssn_gt)]
+fn c01_ssn_gt_serial_spec() {
+    let (a, b): (u16, u16) = (kani::any(), kani::any());
+    let r = ssn_gt(a, b);
+    assert!(post_ssn_gt(a, b, r));
+}
+/// irreflexive, asymmetric, successor is greater — what SACK / FORWARD-TSN / SSN ordering rely on
+#[kani::proof]
+fn c01_serial_order_laws() {
+    let (a, b): (u32, u32) = (kani::any(), kani::any());
     assert!(!tsn_gt(a, a));
     if tsn_gt(a, b) { assert!(!tsn_gt(b, a)); }
     assert!(tsn_gt(a.wrapping_add(1), a));
-}
-#[kani::proof]
-fn c01_ssn_gt_serial_spec() {
-    let (a, b): (u16, u16) = (kani::any(), kani::any());
-    let d = (a as u32 + 65536 - b as u32) % 65536;
-    assert!(ssn_gt(a, b) == (d > 0 && d < 32768));
-    assert!(!ssn_gt(a, a));
-    if ssn_gt(a, b) { assert!(!ssn_gt(b, a)); }
-    assert!(ssn_gt(a.wrapping_add(1), a));
+    let (x, y): (u16, u16) = (kani::any(), kani::any());
+    assert!(!ssn_gt(x, x));
+    if ssn_gt(x, y) { assert!(!ssn_gt(y, x)); }
+    assert!(ssn_gt(x.wrapping_add(1), x));
 }
 #[kani::proof]
 fn canary_ssn_gt_is_plain_greater() {
